@@ -78,12 +78,16 @@ Definition bpb_create (b : block) : M (N * bool) :=
 Definition parse_volume (id idx lba_start num_blocks : N) : M vol :=
   b <- cache_read lba_start ;;
   '(cc, fat32) <- bpb_create b ;;
-  if U32 <=? lba_start + (bpb_total_blocks b - 1) then fail FormatError else
+  if U32 <=? lba_start + bpb_total_blocks b then fail FormatError else
+  if (le16 b 14 =? 0) || (get8 b 16 =? 0) then fail FormatError else
+  (* u64 arithmetic in the code: no overflow *)
+  if bpb_fat_size b * 512 <? (cc + 2) * (if fat32 then 4 else 2) then fail FormatError else
   let fat_start := le16 b 14 in
   second <- (if get8 b 16 =? 2 then x <- add32 fat_start (bpb_fat_size b) ;; ret (Some x) else ret None) ;;
   if fat32 then
     nf <- mul32 (get8 b 16) (bpb_fat_size b) ;;
     first_data <- add32 fat_start nf ;;
+    if 268435445 <? cc then fail FormatError else
     let info_location := le16 b 48 in
     if (info_location =? 0) || (fat_start <=? info_location) then fail FormatError else
     info_abs <- add32 lba_start info_location ;;
